@@ -21,6 +21,11 @@ func (group *Group) startRecordMpegtsIfNeeded(nowUnix int64) {
 		return
 	}
 
+	if streamNameHasDotDotElement(group.streamName) {
+		Log.Errorf("[%s] record mpegts disabled for this stream, stream name would escape mpegts out path. streamName=%s", group.UniqueKey, group.streamName)
+		return
+	}
+
 	// 构造文件名
 	filename := fmt.Sprintf("%s-%d.ts", group.streamName, nowUnix)
 	filenameWithPath := filepath.Join(group.config.RecordConfig.MpegtsOutPath, filename)
